@@ -28,7 +28,7 @@ LineSeq == SetToSeq(Lines)
 \* tier constants
 Q_PBase == {"rax", "%rax", "r8"}
 Q_PIndex == {<<>>, <<"rbx", "4">>, <<"%r8", "1">>}
-Q_PDisp == {"", "0x8", "8", "-0x8", "0x0"}
+Q_PDisp == {"", "0x8", "8", "-0x8", "0x0", "0"}
 Q_OBase == {"%rax", "%r8", "%r8d"}
 Q_OIndex == {<<"", "">>, <<"%rbx", "4">>, <<"%r8", "1">>, <<"%rbx", "8">>, <<"%rax", "4">>}
 Q_ODisp == {"", "0x8", "-0x8", "0x80", "0x0"}
